@@ -490,12 +490,21 @@ func (lf *lenFacts) clampedWindow(sl *ssa.Slice) (bool, string) {
 	if sl.Low == nil || sl.High == nil {
 		return false, ""
 	}
-	hi, ok := sl.High.(*ssa.Phi)
-	if !ok || len(hi.Edges) != 2 {
+	var cands []ssa.Value
+	viaMin := false
+	if hi, ok := sl.High.(*ssa.Phi); ok && len(hi.Edges) == 2 {
+		cands = hi.Edges
+	} else if mc, ok := sl.High.(*ssa.Call); ok {
+		// the clamp written with the builtin: end := min(low+size, len(x))
+		if bi, isB := mc.Call.Value.(*ssa.Builtin); isB && bi.Name() == "min" && len(mc.Call.Args) == 2 {
+			cands, viaMin = mc.Call.Args, true
+		}
+	}
+	if len(cands) != 2 {
 		return false, ""
 	}
 	var ln, ext ssa.Value
-	for _, e := range hi.Edges {
+	for _, e := range cands {
 		if a, isLen := lenArg(e); isLen && a == sl.X {
 			ln = e
 		} else {
@@ -510,7 +519,7 @@ func (lf *lenFacts) clampedWindow(sl *ssa.Slice) (bool, string) {
 		return false, "upper bound is not low+size clamped to len"
 	}
 	// ext is used un-clamped only on the false edge of ext > len
-	cmpOK := false
+	cmpOK := viaMin
 	for _, ref := range *ext.Referrers() {
 		if bo, ok := ref.(*ssa.BinOp); ok && bo.Op == token.GTR && bo.X == ext {
 			if a, isLen := lenArg(bo.Y); isLen && a == sl.X {
